@@ -1,7 +1,7 @@
 """C06 — on-disk layout: sibling tables of writers and readers agree."""
 from ..engine import *
 from ..codec import *
-from ..analysis import term_str, strip, roots, subterms, contains, callee_of
+from ..analysis import term_sig, term_str, strip, roots, subterms, contains, callee_of
 from .codec_rules import three_way, entry_flags, V
 from .names import *
 
@@ -266,20 +266,21 @@ def r5(ctx, prop=P, rule="C06.R5"):
         good = o[0] == "bin" and o[1] == "Mul" and term_has_call(o, FB_TO_BYTES) is not None and any(isinstance(x, tuple) and x[0] == "len" for x in subterms(o))
     ctx.check(prop, rule, "writer: page offset = page id x page byte length", good, "unflushed_id * to_bytes().len()", "flush offset is %s" % (term_str(ff.arg_origin(nc[0], 1))[:120] if nc else None))
     # reader: stride and divisor
+    # name-free: the byte offset handed to FixedBitfield::from_data is an arithmetic progression
+    # (a counter `+= S` or `(0..len).step_by(S)`); the page id under which the page is stored is that
+    # offset divided by D
     strides, divisors = [], []
-    for b in fo.live():
-        for si, st in enumerate(b.stmts):
-            if st["k"] != "assign" or st["rv"]["k"] != "bin":
-                continue
-            op = st["rv"]["op"]
-            l_, r_ = fo.origin_operand(st["rv"]["l"], b.i, si), fo.origin_operand(st["rv"]["r"], b.i, si)
-            nm = named_local(fo, st["rv"]["l"], b.i, si)
-            if nm == "data_index":
-                if op in ("Add", "AddWithOverflow"):
-                    strides.append((ev(ctx, r_), term_str(r_)))
-                if op == "Div":
-                    divisors.append((ev(ctx, r_), term_str(r_)))
-    if not (need(ctx, prop, rule, "DynamicBitfield::open: data_index stride", strides) and need(ctx, prop, rule, "DynamicBitfield::open: page index divisor", divisors)):
+    fds = sites(fo, FB_FROM_DATA)
+    off = fo.arg_origin(fds[0], 0) if fds else None
+    st_ = stride_of(off) if off is not None else None
+    if st_ is not None and term_is_lit(st_[0], 0):
+        strides.append((ev(ctx, st_[1]), term_str(st_[1])))
+    for s_, t_ in fo.calls():
+        if (t_.get("callee") or "").endswith("::insert") and "IntMap" in (t_.get("callee") or "") and len(t_["args"]) == 3:
+            kterm = unwrap_ovf(strip(fo.arg_origin(s_, 1)))
+            if kterm[0] == "bin" and kterm[1] == "Div" and off is not None and term_sig(unwrap_ovf(kterm[2])) == term_sig(unwrap_ovf(off)):
+                divisors.append((ev(ctx, kterm[3]), term_str(kterm[3])))
+    if not (need(ctx, prop, rule, "DynamicBitfield::open: stride of the page byte offset", strides) and need(ctx, prop, rule, "DynamicBitfield::open: page index divisor", divisors)):
         return
     ctx.check(prop, rule, "reader: pages are read at the writer's stride", all(v == page for v, _ in strides) and all(v == page for v, _ in divisors),
               "stride = divisor = %s bytes" % page,
